@@ -31,11 +31,11 @@ func init() {
 				if fn == nil {
 					return
 				}
-				mp(P, R, "C10.a", kUpdVerify+":signature", "nil error => update.SignedAccumulator.UnmarshalVerify(pk) returned nil", fn, AcceptNilErr(1), &MustPass{NoInterproc: true, Match: func(a Atom) bool {
+				mp(P, R, "C10.a", kUpdVerify+":signature", "nil error => update.SignedAccumulator.UnmarshalVerify(pk) returned nil", fn, AcceptNilErr(1), &MustPass{Match: func(a Atom) bool {
 					c, idx := callAndResult(a.V)
 					return c != nil && calleeName(c) == kSaccVerify && idx == 1 && a.Want == Nil && desc(c.Call.Args[0]) == "<revocation.Update>.SignedAccumulator" && desc(c.Call.Args[1]) == pkD
 				}})
-				mp(P, R, "C10.a", kUpdVerify+":chain", "nil error => EventList.Verify(acc) returned nil for NewEventList(update.Events...) and the verified accumulator", fn, AcceptNilErr(1), &MustPass{NoInterproc: true, Match: func(a Atom) bool {
+				mp(P, R, "C10.a", kUpdVerify+":chain", "nil error => EventList.Verify(acc) returned nil for NewEventList(update.Events...) and the verified accumulator", fn, AcceptNilErr(1), &MustPass{Match: func(a Atom) bool {
 					c, _ := callAndResult(a.V)
 					if c == nil || calleeName(c) != kELVerify || a.Want != Nil {
 						return false
@@ -80,7 +80,7 @@ func init() {
 					{"ParentHash", is("<revocation.Event>.ParentHash"), "link to the parent"},
 					{"E", is("<revocation.Event>.E"), "revoked value"},
 				})
-				mp(P, R, "C10.e", kHashUsing+":alg-whitelisted", "a hash is produced only for a whitelisted algorithm", fn, AcceptNilErr(1), &MustPass{NoInterproc: true, Match: func(a Atom) bool {
+				mp(P, R, "C10.e", kHashUsing+":alg-whitelisted", "a hash is produced only for a whitelisted algorithm", fn, AcceptNilErr(1), &MustPass{Match: func(a Atom) bool {
 					_, ok := callAtom(a, Nil, "revocation.checkHashAlg")
 					return ok
 				}})
@@ -95,7 +95,7 @@ func init() {
 				sts := receiverStores(fn)
 				R.decide("C10.f", kPrepend+":one-store", "exactly one store through the receiver", len(sts) == 1, fmt.Sprintf("%d stores", len(sts)), P.Pos(fn.Pos()))
 				for _, st := range sts {
-					q := &MustPass{P: P, NoInterproc: true, Match: func(a Atom) bool {
+					q := &MustPass{P: P, Match: func(a Atom) bool {
 						c, _ := callAndResult(a.V)
 						if c == nil || calleeName(c) != kELVerify || a.Want != Nil {
 							return false
@@ -147,8 +147,8 @@ func signedAccumulatorRule(P *Program, R *Report) {
 				continue
 			}
 			n++
-			r1 := (&MustPass{P: P, NoInterproc: true, Match: counter}).MustReach(fn, st)
-			r2 := (&MustPass{P: P, NoInterproc: true, Match: sig}).MustReach(fn, st)
+			r1 := (&MustPass{P: P, Match: counter}).MustReach(fn, st)
+			r2 := (&MustPass{P: P, Match: sig}).MustReach(fn, st)
 			R.decide(rule, fmt.Sprintf("%s:cache-store#%d:counter", kSaccVerify, n), "the accumulator is cached only after pk.Counter == s.PKCounter", r1.Holds, r1.Path, P.Pos(st.Pos()))
 			R.decide(rule, fmt.Sprintf("%s:cache-store#%d:signature", kSaccVerify, n), "the accumulator is cached only after signed.UnmarshalVerify(pk.ECDSA, s.Data, dst) returned nil", r2.Holds, r2.Path, P.Pos(st.Pos()))
 			if r2.Holds && dst != nil {
@@ -158,7 +158,7 @@ func signedAccumulatorRule(P *Program, R *Report) {
 		}
 		R.decide(rule, kSaccVerify+":cache-stores", "the cache is written (memoisation present)", n >= 1, fmt.Sprintf("%d", n), P.Pos(fn.Pos()))
 		// non-cached returns
-		mp(P, R, rule, kSaccVerify+":return", "a nil error is returned only from the cache or after counter and signature checks", fn, AcceptNilErr(1), &MustPass{NoInterproc: true, Match: sig,
+		mp(P, R, rule, kSaccVerify+":return", "a nil error is returned only from the cache or after counter and signature checks", fn, AcceptNilErr(1), &MustPass{Match: sig,
 			Exempt: func(a Atom) bool { return desc(a.V) == saccD+".Accumulator" && a.Want == NonNil }})
 		// memo-key completeness (known finding K1): cached path not controlled by pk / Data
 		cachedKeyed := false
@@ -198,7 +198,7 @@ func signedAccumulatorRule(P *Program, R *Report) {
 		if decodeDst == nil {
 			R.bad(rule, kSignedUV+":decode", "the payload is decoded into the destination", "no cbor.Unmarshal into dst found", P.Pos(g.Pos()))
 		} else {
-			r := (&MustPass{P: P, NoInterproc: true, Match: ver}).MustReach(g, decodeDst)
+			r := (&MustPass{P: P, Match: ver}).MustReach(g, decodeDst)
 			R.decide(rule, kSignedUV+":verify-before-decode", "the destination is written only after the signature verified", r.Holds, r.Path, P.Pos(decodeDst.Pos()))
 			// verified bytes are the decoded bytes
 			var verCall *ssa.Call
@@ -210,21 +210,21 @@ func signedAccumulatorRule(P *Program, R *Report) {
 			ok := verCall != nil && desc(verCall.Call.Args[1]) == desc(decodeDst.Call.Args[0])
 			R.decide(rule, kSignedUV+":same-bytes", "the bytes that are decoded are the bytes whose signature was verified", ok, "", P.Pos(g.Pos()))
 		}
-		mp(P, R, rule, kSignedUV+":nil=>verified", "nil error => Verify(pk, msg, sig) returned nil", g, AcceptNilErr(0), &MustPass{NoInterproc: true, Match: ver})
+		mp(P, R, rule, kSignedUV+":nil=>verified", "nil error => Verify(pk, msg, sig) returned nil", g, AcceptNilErr(0), &MustPass{Match: ver})
 	}
 	if v := mustFunc(P, R, rule, kSignedVer); v != nil {
-		mp(P, R, rule, kSignedVer+":ecdsa", "nil error => ecdsa.Verify(pk, sha256(msg), r, s) was true", v, AcceptNilErr(0), &MustPass{NoInterproc: true, Match: func(a Atom) bool {
+		mp(P, R, rule, kSignedVer+":ecdsa", "nil error => ecdsa.Verify(pk, sha256(msg), r, s) was true", v, AcceptNilErr(0), &MustPass{Match: func(a Atom) bool {
 			c, ok := callAtom(a, True, "crypto/ecdsa.Verify")
 			if !ok {
 				return false
 			}
 			return (desc(c.Call.Args[0]) == "arg#0" || desc(c.Call.Args[0]) == "<crypto/ecdsa.PublicKey>") && dependsOn(P, c.Call.Args[1], func(d string) bool { return strings.HasPrefix(d, "call:crypto/sha256.Sum256(arg#1)") })
 		}})
-		mp(P, R, rule, kSignedVer+":no-trailing", "nil error => the DER signature had no trailing bytes", v, AcceptNilErr(0), &MustPass{NoInterproc: true, Match: func(a Atom) bool {
+		mp(P, R, rule, kSignedVer+":no-trailing", "nil error => the DER signature had no trailing bytes", v, AcceptNilErr(0), &MustPass{Match: func(a Atom) bool {
 			g, ok := parseGuard(a, nil)
 			return ok && g.Kind == "int" && strings.HasPrefix(g.Subject, "len(call:encoding/asn1.Unmarshal(") && g.Rel == "==" && g.BoundA.String() == "0"
 		}})
-		mp(P, R, rule, kSignedVer+":parsed", "nil error => the signature parsed", v, AcceptNilErr(0), &MustPass{NoInterproc: true, Match: func(a Atom) bool {
+		mp(P, R, rule, kSignedVer+":parsed", "nil error => the signature parsed", v, AcceptNilErr(0), &MustPass{Match: func(a Atom) bool {
 			c, idx := callAndResult(a.V)
 			return c != nil && calleeName(c) == "encoding/asn1.Unmarshal" && idx == 1 && a.Want == Nil
 		}})
@@ -242,7 +242,7 @@ func eventListVerifyRule(P *Program, R *Report) {
 		g, ok := parseGuard(a, nil)
 		return ok && g.Kind == "int" && g.Subject == "len("+ev+")" && g.Rel == "==" && g.BoundA.String() == "0"
 	}
-	mp(P, R, rule, kELVerify+":tail-hash", "nil for a non-empty list => events[count-1].hashEquals(acc.EventHash) returned nil", fn, AcceptNilErr(0), &MustPass{NoInterproc: true, Exempt: empty, Match: func(a Atom) bool {
+	mp(P, R, rule, kELVerify+":tail-hash", "nil for a non-empty list => events[count-1].hashEquals(acc.EventHash) returned nil", fn, AcceptNilErr(0), &MustPass{Exempt: empty, Match: func(a Atom) bool {
 		c, ok := callAtom(a, Nil, kHashEquals)
 		if !ok {
 			return false
@@ -275,7 +275,7 @@ func eventListVerifyRule(P *Program, R *Report) {
 	} {
 		ck := ck
 		fa := &ForAll{P: P, Spec: ForAllSpec{Coll: is(ev), Exempt: exempt, Body: func(f *ssa.Function, l *Loop) *MustPass {
-			return &MustPass{NoInterproc: true, Match: ck.m}
+			return &MustPass{Match: ck.m}
 		}}}
 		m := fa.inFn(fn, AcceptNilErr(0))
 		R.decide(rule, kELVerify+":"+ck.name, "nil (without the verified memo) => "+ck.what, m.holds, m.detail, P.Pos(fn.Pos()))
@@ -290,10 +290,10 @@ func hashEqualityRule(P *Program, R *Report) {
 			return ok && g.Kind == "int" && g.Rel == "==" && ((g.Subject == "len(arg#0)" && g.BoundA.String() == "len(arg#1)") || (g.Subject == "len(arg#1)" && g.BoundA.String() == "len(arg#0)"))
 		}
 		mp(P, R, rule, kHashEqual+":full-equality", "true => the two hashes have equal length and equal bytes (bytes.Equal / constant-time compare, or a loop guarded by a length-equality test)", fn, AcceptTrue(0),
-			&MustPass{NoInterproc: true, Match: anyOf(eqMatcher(is("arg#0"), is("arg#1")), lenEq)})
+			&MustPass{Match: anyOf(eqMatcher(is("arg#0"), is("arg#1")), lenEq)})
 	}
 	if fn := mustFunc(P, R, rule, kHashEquals); fn != nil {
-		mp(P, R, rule, kHashEquals+":equal", "nil => Equal(freshly computed hash of this event, given hash) was true", fn, AcceptNilErr(0), &MustPass{NoInterproc: true, Match: func(a Atom) bool {
+		mp(P, R, rule, kHashEquals+":equal", "nil => Equal(freshly computed hash of this event, given hash) was true", fn, AcceptNilErr(0), &MustPass{Match: func(a Atom) bool {
 			c, ok := callAtom(a, True, kHashEqual)
 			if !ok {
 				return false
@@ -350,7 +350,7 @@ func verifiedMemoRule(P *Program, R *Report) {
 				continue
 			}
 			// after the loop: every path to the store passed the tail-hash test
-			q := &MustPass{P: P, NoInterproc: true, Match: func(a Atom) bool {
+			q := &MustPass{P: P, Match: func(a Atom) bool {
 				_, ok := callAtom(a, Nil, kHashEquals)
 				return ok
 			}}
